@@ -35,16 +35,27 @@ S = 64
 INVS = ["TypeOK", "Faithful", "JacCoords", "Recorded", "KeysDistinct", "NonEmptyEntries", "Memo",
         "NoJacStored", "NoDbNoRecord"]
 PROPS = ["KeysAppendOnly", "WriteOnce", "ConfigFixed", "ServedFromDb", "PreprocessIdempotent"]
-CALLS = ("EvalF", "EvalJ", "EvalAll", "Preprocess", "Repreprocess")
+# specs/ProblemEvalRef.tla (EXTENDS ProblemEval): the caller-owned arrays (argument / returned cells) and the
+# caller's in-place edits of them
+INVS_R = ["TypeOKR"]
+PROPS_R = ["CallerCannotCorrupt"]
+EDITS = ("MutateArg", "MutateReturned")
+CALLS = ("EvalF", "EvalJ", "EvalAll", "Preprocess", "Repreprocess") + EDITS
+ACTIONS = ("CEvalF", "CEvalJ", "CEvalAll", "CPreprocess", "CRepreprocess") + EDITS
 ALL_SPACES = ["finite", "equal", "halfinf", "inf", "int", "intnorm", "mixed3", "allint", "intneg"]
-MODULE = "ProblemEval"
+MODULE = "ProblemEvalRef"
 
 
-def cfg_text(spaces, fn1, fn2, npts, max_calls, max_level, lin="noInteger", grad="scaleOnly"):
+def cfg_text(spaces, fn1, fn2, npts, max_calls, max_level, lin="noInteger", grad="scaleOnly", max_mut=1,
+             key_by_ref=False, value_by_ref=False):
+    """max_level: bound on the behaviour length in states counting the public calls only (BaseLevel);
+    max_mut in-place edits of the caller's arrays may be interleaved (MaxLevel = BaseLevel + MaxMut)."""
     s = "CONSTANTS\n SpaceIds = {" + ", ".join(f'"{x}"' for x in spaces) + "}\n"
-    s += f' Fn1 = "{fn1}"\n Fn2 = "{fn2}"\n NPts = {npts}\n MaxCalls = {max_calls}\n MaxLevel = {max_level}\n'
-    s += f' LinRule = "{lin}"\n GradRule = "{grad}"\nSPECIFICATION Spec\nCHECK_DEADLOCK FALSE\n'
-    s += "".join(f"INVARIANT {i}\n" for i in INVS) + "".join(f"PROPERTY {p}\n" for p in PROPS)
+    s += f' Fn1 = "{fn1}"\n Fn2 = "{fn2}"\n NPts = {npts}\n MaxCalls = {max_calls}\n'
+    s += f' BaseLevel = {max_level}\n MaxMut = {max_mut}\n MaxLevel = {max_level + max_mut}\n'
+    s += f' KeyByRef = {"TRUE" if key_by_ref else "FALSE"}\n ValueByRef = {"TRUE" if value_by_ref else "FALSE"}\n'
+    s += f' LinRule = "{lin}"\n GradRule = "{grad}"\nSPECIFICATION SpecR\nCHECK_DEADLOCK FALSE\n'
+    s += "".join(f"INVARIANT {i}\n" for i in INVS + INVS_R) + "".join(f"PROPERTY {p}\n" for p in PROPS + PROPS_R)
     return s
 
 
@@ -223,13 +234,45 @@ class Harness:
     # -- one public call, as named by ret.call of the specification
     def call(self, call):
         name = call[0]
+        if name in EDITS:
+            return self.edit(call)
+        # the caller's cells (specs/ProblemEvalRef.tla: arg, rets): the array given to this call and the
+        # arrays it returns stay in the caller's hands, who may edit them in place afterwards
+        self.arg = None
+        self.returned = None
+        got = self._call(call)
+        self.returned = got
+        return got
+
+    def edit(self, call):
+        """MutateArg / MutateReturned: in-place edits of the arrays of the last call."""
+        if call[0] == "MutateArg":
+            if self.arg is None or self.arg.shape != (len(call[1]),):
+                raise MachineryError(f"MutateArg {call!r} without an argument array of the last call")
+            self.arg[...] = np.array(call[1], dtype=float) / S
+        else:
+            arrays = [a for d in (self.returned["outs"], self.returned["jacs"]) for a in d.values()]
+            if not arrays:
+                raise MachineryError("MutateReturned without a returned array")
+            for a in arrays:
+                target = a.data if hasattr(a, "toarray") else a  # sparse: the explicit entries
+                if not isinstance(target, np.ndarray) or not target.flags.writeable or target.ndim == 0:
+                    continue  # nothing the caller could edit in place
+                target += 1
+        return {"outs": {}, "jacs": {}}
+
+    def _call(self, call):
+        name = call[0]
         if name == "EvalF":
-            return {"outs": {call[1]: self.fobj[call[1]].evaluate(np.array(call[2], dtype=float) / S)}, "jacs": {}}
+            self.arg = np.array(call[2], dtype=float) / S
+            return {"outs": {call[1]: self.fobj[call[1]].evaluate(self.arg)}, "jacs": {}}
         if name == "EvalJ":
-            return {"outs": {}, "jacs": {call[1]: self.fobj[call[1]].jac(np.array(call[2], dtype=float) / S)}}
+            self.arg = np.array(call[2], dtype=float) / S
+            return {"outs": {}, "jacs": {call[1]: self.fobj[call[1]].jac(self.arg)}}
         if name == "EvalAll":
+            self.arg = np.array(call[1], dtype=float) / S
             outs, jacs = self.problem.evaluate_functions(
-                np.array(call[1], dtype=float) / S, design_vector_is_normalized=bool(call[2]),
+                self.arg, design_vector_is_normalized=bool(call[2]),
                 jacobian_functions=() if call[3] else None)
             return {"outs": outs, "jacs": jacs}
         if name == "Preprocess":
@@ -296,7 +339,9 @@ def compare_step(ck: Check, h: Harness, state, got, ctx):
              "neg_zero_key": neg_zero, "nonfloat_key": nonfloat_key,
              # the history so far contains evaluate_functions(<normalised vector>): the only call of the
              # alphabet that builds its database key through unnormalize_vect's common dtype (D0108)
-             "norm_evalall_in_history": any(c[0] == "EvalAll" and bool(c[2]) for c in ctx["calls"])}
+             "norm_evalall_in_history": any(c[0] == "EvalAll" and bool(c[2]) for c in ctx["calls"]),
+             # the caller has edited in place the array it gave to / an array it got from an earlier call
+             "arg_mutated": n_edits["MutateArg"] > 0, "returned_mutated": n_edits["MutateReturned"] > 0}
         s.update(diff=h.diff, jac=h.variant["jac"], support_sparse=h.variant["support_sparse"],
                  build=h.variant["build"], cur=h.cur, pre_norm=h.variant["pre_norm"])
         s.update(kw)
@@ -307,6 +352,19 @@ def compare_step(ck: Check, h: Harness, state, got, ctx):
              "calls_so_far": ctx["calls"], "step": len(ctx["calls"])}
         d.update(kw)
         return d
+
+    n_edits = {e: sum(1 for c in ctx["calls"] if c[0] == e) for e in EDITS}
+
+    def bumped(exp, act):
+        """Classification only (signature of D0110): the implementation's numbers are the specification's
+        plus the caller's in-place edits of returned arrays (+1 each, MutateReturned)."""
+        if act is None or not n_edits["MutateReturned"]:
+            return False
+        e, a = np.array(exp, dtype=float), np.array(act, dtype=float)
+        if e.shape != a.shape or not e.size:
+            return False
+        d = (a - e) / S
+        return bool(np.all((d == np.round(d)) & (d >= 0) & (d <= n_edits["MutateReturned"])) and np.any(d > 0))
 
     def jac_diff(exp, act, physical):
         """Classification only (signature of D0101): the implementation differs from the specification
@@ -334,13 +392,13 @@ def compare_step(ck: Check, h: Harness, state, got, ctx):
         if exp or f in got["outs"]:
             act = vec(got["outs"][f]) if f in got["outs"] else None
             if act != exp:
-                bad += ck.violation("Faithful", sig("Faithful", f, "value", where="return"),
+                bad += ck.violation("Faithful", sig("Faithful", f, "value", where="return", bumped=bumped(exp, act)),
                                     detail(function=f, spec=exp, impl=act))
         expj = spec_mat(ret["jacs"][f])
         if expj or f in got["jacs"]:
             actj = mat(got["jacs"][f]) if f in got["jacs"] else None
             if not same_jac(h, expj, actj):
-                bad += ck.violation("JacCoords", sig("JacCoords", f, "jac", where="return",
+                bad += ck.violation("JacCoords", sig("JacCoords", f, "jac", where="return", bumped=bumped(expj, actj),
                                                      rounded_int_cols_only=actj is not None and jac_diff(expj, actj, False)),
                                     detail(function=f, spec=expj, impl=actj))
     # database: keys, order, names, values
@@ -357,13 +415,13 @@ def compare_step(ck: Check, h: Harness, state, got, ctx):
                 exp = spec_vec(se["vals"][f])
                 act = ie["vals"].get(f)
                 if (act or []) != exp:
-                    bad += ck.violation("Recorded", sig("Recorded", f, "value", where="db"),
+                    bad += ck.violation("Recorded", sig("Recorded", f, "value", where="db", bumped=bumped(exp, act)),
                                         detail(function=f, key=se["key"], spec=exp, impl=act))
                 expj = spec_mat(se["jacs"][f])
                 actj = ie["jacs"].get(f)
                 if not same_jac(h, expj, actj or []):
                     clause = "Recorded" if cfgd["storeJac"] else "NoJacStored"
-                    bad += ck.violation(clause, sig(clause, f, "jac", where="db",
+                    bad += ck.violation(clause, sig(clause, f, "jac", where="db", bumped=bumped(expj, actj or None),
                                                     rounded_int_cols_only=bool(actj) and jac_diff(expj, actj, True)),
                                         detail(function=f, key=se["key"], spec=expj, impl=actj))
             extra = (set(ie["vals"]) | set(ie["jacs"])) - set(fns)
